@@ -214,6 +214,8 @@ def k7_task_class(facts, rep, clause, cls_p, exceptions, dealloc_clause=None):
         if key in exceptions:
             rep.note('%s %s: recorded exception -- %s' % (clause, key, exceptions[key]))
             continue
+        if dealloc_clause and which == 'cancel' and ex and not has_sig:
+            _dealloc_parity(facts, rep, dealloc_clause, cls_p, fn, ex, cl, helpers)
         if not has_sig:
             continue
         n += 1
@@ -247,15 +249,19 @@ def k7_task_class(facts, rep, clause, cls_p, exceptions, dealloc_clause=None):
                        'execute() can return %s without releasing its wait reference / folding the tree and without re-submitting '
                        'itself or a continuation: %s' % (kind, wit), ln=node.get('ln'), key_extra=str(node.get('ln')))
         if dealloc_clause and which == 'cancel' and ex:
-            clx = Closure(facts, cls_p, helpers=helpers)
-            ex_dealloc = all(clx.must(g, 'dea', is_dealloc) for g in ex if g.q.rsplit('::', 1)[0] == fn.q.rsplit('::', 1)[0]) and \
-                any(g.q.rsplit('::', 1)[0] == fn.q.rsplit('::', 1)[0] for g in ex)
-            if ex_dealloc:
-                ok = cl.must(fn, 'dea', is_dealloc)
-                rep.ob(dealloc_clause, 'K7', fn, 'cancel() frees the task object like execute() does', ok,
-                       'execute() deallocates the task on every path but a path through cancel() does not (object leaked when the '
-                       'group is cancelled)')
+            _dealloc_parity(facts, rep, dealloc_clause, cls_p, fn, ex, cl, helpers)
     return n
+
+
+def _dealloc_parity(facts, rep, dealloc_clause, cls_p, fn, ex, cl, helpers):
+    clx = Closure(facts, cls_p, helpers=helpers)
+    owner = fn.q.rsplit('::', 1)[0]
+    same = [g for g in ex if g.q.rsplit('::', 1)[0] == owner]
+    if same and all(clx.must(g, 'dea', is_dealloc) for g in same):
+        ok = cl.must(fn, 'dea', is_dealloc)
+        rep.ob(dealloc_clause, 'K7', fn, 'cancel() frees the task object like execute() does', ok,
+               'execute() deallocates the task on every path but a path through cancel() does not (object leaked when the '
+               'group is cancelled)')
 
 
 def classify_return(fn, defs, v, cl, depth=0):
